@@ -267,6 +267,10 @@ def property_fails_on(op, impl):
         nodes = [] if m.group(3 if kind == "topic" else 4) == "-" else m.group(3 if kind == "topic" else 4).split(";" if kind == "topic" else "+")
         if len(nodes) != nreports:
             return "%s view lists %d node report(s); the responding nodes sent %d" % (kind, len(nodes), nreports)
+        if kind == "topic":
+            bad = topic_channels_fail(req, w, prods, body)
+            if bad:
+                return bad
         if kind == "channel":
             include = all((not w["nsqds"][p]["filters"]) or True for p in prods if p in w["nsqds"])
             gotc = [] if m.group(3) == "-" else m.group(3).split("+")
@@ -299,6 +303,50 @@ def property_fails_on(op, impl):
             have = 0 if remotes == "-" else len(remotes.split("+"))
             if have != n:
                 return "nodes view: %s has %d remote address(es); %d answers mention it" % (tcp, have, n)
+    return None
+
+
+CH_FIELDS = [("depth", 0), ("backend", 2), ("inflight", 3), ("deferred", 4), ("requeue", 5), ("timeout", 6), ("msg", 7),
+             ("zone", 9), ("region", 10), ("global", 11), ("clientCount", 12)]
+
+
+def topic_channels_fail(req, w, prods, body):
+    """/api/topics/:t on the implementation's own answer: every channel some responding node reports for the topic
+    appears exactly once, and its counters are the sums over those node reports."""
+    m = re.search(r" C\[(.*)\]$", body)
+    if not m:
+        return "unreadable topic view %r" % body[-120:]
+    entries = [] if m.group(1) == "-" else m.group(1).split(";")
+    got = {}
+    for e in entries:
+        f = e.split("/")
+        name = "" if f[0] == "-" else f[0]
+        got.setdefault(name, []).append([int(x) for x in f[2].split(",")] + [f[3] == "1"])
+    exp = {}
+    for p in prods:
+        for t in stats_of(w, p, req["a"]) or []:
+            if t["name"] != req["a"]:
+                continue
+            for c in t["channels"]:
+                if c is None:
+                    continue
+                tot = exp.setdefault(c["name"], dict((k, 0) for k, _ in CH_FIELDS))
+                tot["paused"] = tot.get("paused", False) or c["paused"]
+                for k, _ in CH_FIELDS:
+                    tot[k] += c[k]
+    dup = sorted(n for n, v in got.items() if len(v) > 1)
+    if dup:
+        return "topic view lists channel %r %d times (each with part of the sums)" % (dup[0], len(got[dup[0]]))
+    if sorted(got) != sorted(exp):
+        return "topic view lists channels %s; the responding nodes report %s" % (sorted(got), sorted(exp))
+    for n, tot in exp.items():
+        cs = got[n][0]
+        bad = [k for k, i in CH_FIELDS if cs[i] != tot[k]]
+        if bad:
+            return "topic view, channel %r: %s; the sums over the node reports are %s" % (
+                n, dict((k, cs[dict(CH_FIELDS)[k]]) for k in bad), dict((k, tot[k]) for k in bad))
+        if cs[13] != tot["paused"]:
+            return "topic view, channel %r: paused=%s but the nodes report %s" % (n, cs[13], tot["paused"])
     return None
 
 
